@@ -272,7 +272,7 @@ func sigSM(raw json.RawMessage, line string) string {
 	return fmt.Sprintf("strmap/%s/%s/%s", c.VT, why, shape)
 }
 
-var famSM = Register(&Family{Name: "strmap", Spec: "Trace_StrMap", Cfg: "Trace_StrMap.cfg", Run: runSMCase, Sig: sigSM, Retries: 300})
+var famSM = Register(&Family{Name: "strmap", Spec: "Trace_StrMap", Cfg: "Trace_StrMap.cfg", Run: runSMCase, Sig: sigSM, Retries: 300, ParallelGC: true})
 
 // key set generators: lengths 0..long, shared prefixes/suffixes, binary content, near-duplicates
 func smKeys(rng *rand.Rand, n int) []string {
